@@ -1,0 +1,26 @@
+//go:build verif
+
+// Copyright 2025 NVIDIA CORPORATION
+// SPDX-License-Identifier: Apache-2.0
+
+package controllers
+
+import (
+	"k8s.io/apimachinery/pkg/runtime"
+	"sigs.k8s.io/controller-runtime/pkg/client"
+
+	"github.com/NVIDIA/KAI-scheduler/pkg/queuecontroller/controllers/childqueues_updater"
+	"github.com/NVIDIA/KAI-scheduler/pkg/queuecontroller/controllers/resource_updater"
+)
+
+// NewVerifQueueReconciler wires the reconciler exactly as SetupWithManager does, without a manager.
+// Verification-only constructor (the updaters are unexported and otherwise need a live REST config).
+func NewVerifQueueReconciler(c client.Client, s *runtime.Scheme) *QueueReconciler {
+	return &QueueReconciler{Client: c, Scheme: s,
+		resourceUpdater:    resource_updater.ResourceUpdater{Client: c},
+		childQueuesUpdater: childqueues_updater.ChildQueuesUpdater{Client: c}}
+}
+
+// VerifIndexQueueByParent / VerifIndexPodGroupByQueue expose the field-index functions SetupWithManager registers.
+func VerifIndexQueueByParent(o client.Object) []string   { return indexQueueByParent(o) }
+func VerifIndexPodGroupByQueue(o client.Object) []string { return indexPodGroupByQueue(o) }
